@@ -134,6 +134,34 @@ fn gen_c01(tier: &str, rng: &mut Rng) -> Vec<Case> {
             }
         }
     }
+    // sparse tables: many empty columns, a few cells with text, narrow widths
+    let nsp = if thorough { 20000 } else { 1500 };
+    for _ in 0..nsp {
+        let ncols = if rng.chance(1, 10) { rng.range(20, 120) } else { rng.range(1, 14) };
+        let nrows = rng.range(1, 3);
+        let mut html = String::from("<table>");
+        for _ in 0..nrows {
+            html.push_str("<tr>");
+            for _ in 0..ncols {
+                if rng.chance(1, 5) {
+                    html.push_str(&format!("<td>{}</td>", *rng.pick(&["x", "Hello", "ab cd", "中"])));
+                } else if rng.chance(1, 12) {
+                    html.push_str("<td colspan=3></td>");
+                } else {
+                    html.push_str("<td></td>");
+                }
+            }
+            html.push_str("</tr>");
+        }
+        html.push_str("</table>");
+        if rng.chance(1, 4) {
+            html = format!("<ul><li>{}</li></ul>", html);
+        }
+        let cfg = rand_cfg(rng, &[0, 1, 2, 3], true, true);
+        let width = if rng.chance(1, 4) { rng.range(0, 200) } else { rng.range(0, 14) };
+        let id = cases.len();
+        cases.push(mk_case(id, 0, cfg, width, html.into_bytes(), Some(0), g("sparse"), "sparse_tables"));
+    }
     // deep nesting (implementation only: stack / time)
     let depths: &[usize] = if thorough { &[1000, 10000, 30000, 100000] } else { &[500, 3000] };
     for &d in depths {
